@@ -19,7 +19,9 @@ Only variables owned by the executing function are judged at its statements: ins
 enclosing function's variables are either declared nonlocal there (control_flow._get_block_basic_vars treats
 nonlocals as always live) or only read (never a loop/cond variable).  Zero-trip loops, loop targets reassigned in
 the body, closures called later and `nonlocal` writers are in the space.  Implicit exceptions end the checking of
-the run.
+the run.  A missing live variable whose value travels along the loop-exit edge of a `for` that binds the same
+variable is the recorded finding D1 and is reported as known-D1 (the default space avoids it; a witness run is
+always made).
 
 usage: c07_usebefore.py <seed> <tier> [--k K] [--random N] [--avoid D1,D2,D6]
 """
@@ -178,7 +180,10 @@ def check_run(an, p, log):
         rname, rowner, rreader, aug = p.reads[rk]
         via = '' if rreader == fid else ' inside local function %s' % an.nodes[rreader].name
         side = 'LIVE_VARS_OUT' if k == 'x' else 'LIVE_VARS_IN'
-        fails.append(dict(kind='live-missing', sig='%s:%s' % (side, type(node).__name__), var=v,
+        d1 = dfinstr.crosses_for_exit(an, log, v, act, time, t[i][0]) or (
+            k == 'b' and isinstance(node, ast.For) and v in dfinstr._stored(node.target))
+        fails.append(dict(kind='known-D1' if d1 else 'live-missing',
+                          sig='for-target-killed-on-exit-edge' if d1 else '%s:%s' % (side, type(node).__name__), var=v,
                           stmt=dfinstr.text(node), read_at=dfinstr.stmt_text(an, an.nodes[rk]) + via,
                           what='the value %s holds when "%s" %s is read later by "%s"%s before being overwritten, '
                                'but %s is not in %s' % (v, dfinstr.text(node), 'finishes' if k == 'x' else 'starts',
@@ -192,7 +197,7 @@ def check_program(item):
   try:
     an = dfinstr.analyse(src)
   except Exception as e:
-    res['error'] = dict(kind='analysis-error', sig=type(e).__name__, what='%s: %s' % (type(e).__name__, str(e)[:200]))
+    res['error'] = dfinstr.analysis_error(src, e)
     return res
   try:
     p = dfinstr.instrument(src)
@@ -276,7 +281,7 @@ def main():
         f['detail'] = '%s:%s' % (f['kind'], f['sig'])
         f['kind'], f['sig'] = 'known-D1', 'for-target-killed-on-exit-edge'
       key = '%s:%s' % (f['kind'], f['sig'])
-      counts[key] = counts.get(key, 0) + 1
+      counts.setdefault(key, set()).add(r['idx'])
       body = src[src.index('def f('):]
       f['program'] = body
       if key not in best or len(body) < len(best[key]['program']):
@@ -286,7 +291,7 @@ def main():
   failures = []
   for key in sorted(best):
     f = best[key]
-    f['programs_failing'] = counts[key]
+    f['programs_failing'] = len(counts[key])
     failures.append(f)
   harness.emit(dict(
       evaluated=checked, runs=runs, programs=len(items), skeleton_programs=nskel, random_programs=nrand,
